@@ -71,6 +71,18 @@ CLAIMED = {
               "Not decided: numeric round trip (six printed decimals), key order, values of parse_num."),
         technique="who-may-access rule with positive fixture, recursion-cycle depth-argument analysis on the call graph, table extraction and composition",
         ref="DESIGN.md section 4 C18"),
+    "C19": dict(
+        text=("Decides the clauses whose truth is in the shape of the loader: (1) typestate over the file stream, by abstract "
+              "interpretation of load_file and (interprocedurally) skip_bom: on no path is a seek/tell/read issued on a stream "
+              "still carrying an unchecked short read - the condition under which files of 0, 1 and 2 bytes lose their "
+              "content; (2) every stream use is dominated by the is_open() test whose failing arm throws "
+              "file_not_found_error, and the file is opened binary; (3) in use() the not-yet-used test, the evaluation and "
+              "the insertion into the used-file set lie inside one uninterrupted critical section of the use mutex, "
+              "evaluation happens only under `count == 0`, the nested include's own file_not_found_error is rethrown, and "
+              "paths are tried in configured order; (4) the parser entry consumes input before parsing only under the '#!' "
+              "test. Not decided: byte-for-byte equality of eval_file(path) and eval(content) on generated programs."),
+        technique="stream typestate by abstract interpretation (interprocedural summaries), dominance rules, critical-section rule",
+        ref="DESIGN.md section 4 C19"),
 }
 
 NOT_YET = "check not built yet in this session (design in DESIGN.md section 4); will be claimed once its rules run clean both ways"
